@@ -453,6 +453,7 @@ type State struct {
 	AddrD bool   `json:"addrd"`
 	Ahr   bool   `json:"ahr"`
 	Bip   bool   `json:"bip"`
+	Gd    bool   `json:"gd"` // B1 is in progress on this connection without a collector (requested with a plain getdata)
 	H1    string `json:"h1"` // no | b2g | got
 	H2    bool   `json:"h2"`
 	Mp    bool   `json:"mp"`
@@ -469,6 +470,8 @@ func (w *World) project(c *network.OneConnection, runExited bool) (st State) {
 	st.Ver, st.Cmpct, st.Auth, st.Authd = c.X.VersionReceived, int(c.Node.SendCmpctVer), c.X.AuthMsgGot, c.X.Authorized
 	st.AddrD, st.Ahr = c.X.GetAddrDone, c.X.AllHeadersReceived
 	st.Bip = network.VerifCollectorPending(c, btc.NewUint256(w.b1Hash[:]).BIdx())
+	_, inprog := c.GetBlockInProgress[btc.NewUint256(w.b1Hash[:]).BIdx()]
+	st.Gd = inprog && !st.Bip
 	c.Mutex.Unlock()
 	i1, i2 := btc.NewUint256(w.b1Hash[:]).BIdx(), btc.NewUint256(w.b2Hash[:]).BIdx()
 	network.MutexRcv.Lock()
@@ -486,6 +489,37 @@ func (w *World) project(c *network.OneConnection, runExited bool) (st State) {
 	_, st.O2 = txpool.TransactionsRejected[w.orph[1].Hash.BIdx()]
 	txpool.TxMutex.Unlock()
 	return
+}
+
+// waitTicks returns when OneConnection.Tick has run n more times ("" ok, "timeout", "closed").
+func (w *World) waitTicks(c *network.OneConnection, n uint64, runDone <-chan struct{}, lim time.Duration) string {
+	read := func() (uint64, bool) {
+		if c.Mutex.TryLock() {
+			t := c.X.Ticks
+			c.Mutex.Unlock()
+			return t, true
+		}
+		return 0, false
+	}
+	end := time.Now().Add(lim)
+	var start uint64
+	have := false
+	for time.Now().Before(end) {
+		select {
+		case <-runDone:
+			return "closed"
+		default:
+		}
+		if t, ok := read(); ok {
+			if !have {
+				start, have = t, true
+			} else if t >= start+n {
+				return ""
+			}
+		}
+		time.Sleep(5 * time.Millisecond)
+	}
+	return "timeout"
 }
 
 // ---------------------------------------------------------------- one session
@@ -741,7 +775,11 @@ func (w *World) runSession(id int, msgs []Class, seed int64, lim Limits, keepByt
 				nonce = network.VerifNonce()
 			}
 		}
-		f, er := w.concretise(cl, nonce, rnd)
+		var f []byte
+		var er error
+		if cl.Cmd != "idle" {
+			f, er = w.concretise(cl, nonce, rnd)
+		}
 		if er != nil {
 			res.Note = "harness: " + er.Error()
 			sr.Out = "skipped"
@@ -759,22 +797,32 @@ func (w *World) runSession(id int, msgs []Class, seed int64, lim Limits, keepByt
 				c.Mutex.Lock()
 			}
 		}
-		sr.Len = len(f) - 24
-		if keepBytes {
-			sr.Bytes = hx(f)
-		}
 		t0 := time.Now()
-		body := f
-		if pendingMagic != nil {
-			// the barrier of the previous message already carried our first four bytes
-			body = f[4:]
+		st := ""
+		if cl.Cmd == "idle" {
+			// the peer stays silent until the node's own tick has run (twice): timers, getheaders / getdata requests
+			st = w.waitTicks(c, 2, runDone, lim.Msg)
+		} else {
+			sr.Len = len(f) - 24
+			if keepBytes {
+				sr.Bytes = hx(f)
+			}
+			body := f
+			if pendingMagic != nil {
+				// the barrier of the previous message already carried our first four bytes
+				body = f[4:]
+			}
+			st = send(peerEnd, body, runDone, lim.Msg)
 		}
-		st := send(peerEnd, body, runDone, lim.Msg)
 		// barrier: the first four bytes of the next frame are consumed only after this handler returned
 		var next []byte
-		if st == "" {
+		if st == "" && cl.Cmd != "idle" {
 			next = append([]byte(nil), common.Magic[:]...)
-			if i+1 < len(msgs) && msgs[i+1].Cmd == "frame" && msgs[i+1].K == "badmagic" {
+			nx := i + 1
+			for nx < len(msgs) && msgs[nx].Cmd == "idle" {
+				nx++
+			}
+			if nx < len(msgs) && msgs[nx].Cmd == "frame" && msgs[nx].K == "badmagic" {
 				for k := range next {
 					next[k] ^= 0xff
 				}
